@@ -67,11 +67,19 @@ def main(argv=None):
             chartab.load(ctx.native('dev').call({'op': 'chartab', 'cps': chartab.table_chars(ws.src)}))
         except Exception as e:
             print(f'INCONCLUSIVE property={pid} native helper unavailable: {e}'); return 2
+        # conformance of the std models with the real std (same vectors computed natively and through the model registry)
+        from . import stdcheck
+        std_ok, std_bad = stdcheck.check(ctx.native('dev'))
+        if std_bad:
+            for b in std_bad[:10]: print('STD-MODEL-MISMATCH', json.dumps(b, default=str)[:400])
+            print(f'INCONCLUSIVE property={pid} std model conformance failed on {len(std_bad)} vectors (exit 2, nothing is claimed)')
+            return 2
         t_setup = time.time() - t0
         # ---- translator validation (licence to issue a verdict)
-        val_ok, val_bad = 0, []
+        val_ok, val_bad = std_ok, []
         if not a.no_validate and hasattr(prop, 'validate'):
             val_ok, val_bad = prop.validate(ctx)
+            val_ok += std_ok
             if val_bad:
                 for b in val_bad[:10]: print('ENCODING-MISMATCH', json.dumps(b, default=str)[:600])
                 print(f'INCONCLUSIVE property={pid} translator validation failed on {len(val_bad)} vectors (exit 2, nothing is claimed)')
